@@ -7,7 +7,7 @@ task-creation models assume. -/
 namespace SciVerif.Tie
 -- PIN-NOT: Scipipe.Task_Execute Scipipe.FinalizePaths Scipipe.Task_writeAuditLogs
 -- functions the model relies on without an obligation of its own naming them (pinned by bin/mkpins):
--- PIN-ALSO: Scipipe.Workflow_runProcs Scipipe.Sink_Run Scipipe.InPort_Recv Scipipe.InParamPort_Recv Scipipe.InPort_From Scipipe.InParamPort_From Scipipe.OutPort_To Scipipe.OutParamPort_To Scipipe.InPort_AddRemotePort Scipipe.OutPort_AddRemotePort Scipipe.InParamPort_AddRemotePort Scipipe.OutParamPort_AddRemotePort Scipipe.InPort_removeRemotePort Scipipe.OutPort_removeRemotePort Scipipe.BaseProcess_CloseAllOutPorts Scipipe.BaseProcess_CloseOutParamPorts Scipipe.getBufsize Scipipe.NewOutPort Scipipe.NewOutParamPort Scipipe.InParamPort_FromStr Scipipe.BaseProcess_InitInPort Scipipe.BaseProcess_InitOutPort Scipipe.BaseProcess_InitInParamPort Scipipe.BaseProcess_InitOutParamPort Scipipe.Process_In Scipipe.Process_Out Scipipe.Process_InParam Scipipe.Process_OutParam Scipipe.NewProc Scipipe.Workflow_NewProc Scipipe.NewBaseProcess Scipipe.BaseProcess_InPort Scipipe.BaseProcess_OutPort Scipipe.BaseProcess_InParamPort Scipipe.BaseProcess_OutParamPort Scipipe.BaseProcess_InPorts Scipipe.BaseProcess_OutPorts Scipipe.BaseProcess_InParamPorts Scipipe.BaseProcess_OutParamPorts Scipipe.InPort_SetProcess Scipipe.OutPort_SetProcess Scipipe.InPort_Process Scipipe.OutPort_Process Scipipe.OutParamPort_Process Scipipe.InParamPort_Process Scipipe.InParamPort_FromInt Scipipe.InParamPort_FromFloat Scipipe.InPort_Name Scipipe.OutPort_Name Scipipe.InParamPort_Name Scipipe.OutParamPort_Name Scipipe.InParamPort_SetProcess Scipipe.OutParamPort_SetProcess
+-- PIN-ALSO: Scipipe.Workflow_reconnectDeadEndConnections Scipipe.Workflow_RunToProcs Scipipe.Workflow_runProcs Scipipe.Sink_Run Scipipe.InPort_Recv Scipipe.InParamPort_Recv Scipipe.InPort_From Scipipe.InParamPort_From Scipipe.OutPort_To Scipipe.OutParamPort_To Scipipe.InPort_AddRemotePort Scipipe.OutPort_AddRemotePort Scipipe.InParamPort_AddRemotePort Scipipe.OutParamPort_AddRemotePort Scipipe.InPort_removeRemotePort Scipipe.OutPort_removeRemotePort Scipipe.BaseProcess_CloseAllOutPorts Scipipe.BaseProcess_CloseOutParamPorts Scipipe.getBufsize Scipipe.NewOutPort Scipipe.NewOutParamPort Scipipe.InParamPort_FromStr Scipipe.BaseProcess_InitInPort Scipipe.BaseProcess_InitOutPort Scipipe.BaseProcess_InitInParamPort Scipipe.BaseProcess_InitOutParamPort Scipipe.Process_In Scipipe.Process_Out Scipipe.Process_InParam Scipipe.Process_OutParam Scipipe.NewProc Scipipe.Workflow_NewProc Scipipe.NewBaseProcess Scipipe.BaseProcess_InPort Scipipe.BaseProcess_OutPort Scipipe.BaseProcess_InParamPort Scipipe.BaseProcess_OutParamPort Scipipe.BaseProcess_InPorts Scipipe.BaseProcess_OutPorts Scipipe.BaseProcess_InParamPorts Scipipe.BaseProcess_OutParamPorts Scipipe.InPort_SetProcess Scipipe.OutPort_SetProcess Scipipe.InPort_Process Scipipe.OutPort_Process Scipipe.OutParamPort_Process Scipipe.InParamPort_Process Scipipe.InParamPort_FromInt Scipipe.InParamPort_FromFloat Scipipe.InPort_Name Scipipe.OutPort_Name Scipipe.InParamPort_Name Scipipe.OutParamPort_Name Scipipe.InParamPort_SetProcess Scipipe.OutParamPort_SetProcess
 open SciVerif.Generated
 
 def noEarlyExit (l : List Atom) : Bool := count (fun a => a.kind == .break_ || a.kind == .ret_ || a.kind == .goto_) l == 0
@@ -57,6 +57,7 @@ theorem generated_round_shape :
      ct.any (fun a => a.kind == .defer_ && a.name == "close" && a.args == ["ch"])) = true := by decide
 
 theorem generated_proc_sem_good_c04 : Proc.good procSem := by decide
+
 
 
 
@@ -147,6 +148,8 @@ theorem pinned_skeletons_c04 :
      ("Scipipe.Process_createTasks", "8c856d9ef4492f5d"),
      ("Scipipe.Sink_Run", "2d6c7d95ef617224"),
      ("Scipipe.Workflow_NewProc", "0c40600b4fc86df2"),
+     ("Scipipe.Workflow_RunToProcs", "397593629fe3c425"),
+     ("Scipipe.Workflow_reconnectDeadEndConnections", "9ed90a908028bbfc"),
      ("Scipipe.Workflow_runProcs", "62dfa98c32085220"),
      ("Scipipe.getBufsize", "65b7d390dc0d0c72"),
      ("Scipipe.taskQueue_NextTaskDone", "749f6263d8a0c13f")] = true := by decide
